@@ -75,10 +75,13 @@ def random_session(rng: random.Random, *, minutes=None, fast=None, exch_type=Non
         d = {'symbol': rng.choice(list(candles)), 'timeframe': rng.choice(dts)}
         if d not in dr and not any(r['symbol'] == d['symbol'] and r['timeframe'] == d['timeframe'] for r in routes):
             dr.append(d)
-    # warm-up and length aligned to every route timeframe (as jesse's loader guarantees)
-    mx = max([gen.TF_MIN[r['timeframe']] for r in routes] + [gen.TF_MIN[d['timeframe']] for d in dr])
+    # warm-up aligned to every route timeframe (as jesse's loader guarantees): a multiple of their lcm
+    import math
+    mx = 1
+    for m in [gen.TF_MIN[r['timeframe']] for r in routes] + [gen.TF_MIN[d['timeframe']] for d in dr]:
+        mx = mx * m // math.gcd(mx, m)
     if warmup % mx:
-        warmup = (warmup // mx) * mx
+        warmup = -(-warmup // mx) * mx
     for sym in candles:
         candles[sym]['n'] = minutes + warmup
     return {'config': cfg, 'routes': routes, 'data_routes': dr, 'candles': candles, 'warmup': warmup,
